@@ -33,7 +33,9 @@ fn load(text: &str, l: &Layout, case_tag: u64) -> Result<v1::Instance, String> {
             let dir = std::path::Path::new("/verif/target/tmp");
             let _ = std::fs::create_dir_all(dir);
             static N: std::sync::atomic::AtomicU64 = std::sync::atomic::AtomicU64::new(0);
-            let p = dir.join(format!("c17-{}-{}.mps.gz", std::process::id(), N.fetch_add(1, std::sync::atomic::Ordering::SeqCst)));
+            // load_file reads gzip-compressed MPS whatever the file is called (C18 pairs it with write_file under the same names)
+            let ext = [".mps.gz", ".mps", "", ".gz", ".MPS"][((case_tag / 20) % 5) as usize];
+            let p = dir.join(format!("c17-{}-{}{ext}", std::process::id(), N.fetch_add(1, std::sync::atomic::Ordering::SeqCst)));
             std::fs::write(&p, &bytes).map_err(|e| format!("io: {e}"))?;
             let r = ommx::mps::load_file(&p).map_err(|e| format!("{e}"));
             let _ = std::fs::remove_file(&p);
@@ -246,7 +248,7 @@ impl Property for C17 {
          oracle = the abstract model: matching by name, exact polynomials with every file number expected verbatim (nearest double; one rounding allowed only for the computed end of a ranged row), value domains; non-trivial = >=2 row types and >=2 distinct bound specs, or an error case; distinct = sha256(file text)"
     }
     fn required_labels(&self) -> Vec<String> {
-        let mut v: Vec<String> = ["row=E", "row=L", "row=G", "range+@E", "range-@E", "range+@L", "range-@L", "range+@G", "range-@G", "5-field", "objsense-own-line", "objsense-absent", "foreign-objective-name", "obj-constant", "gzip", "tabs", "comments", "integer-marker", "objsense-gap", "row-named-like-range-twin", "numeric-looking-column-name", "numeric-looking-row-name", "explicit-zero-entry", "column-with-only-zero-entries", "comments-that-look-like-content", "gzip-header-with-optional-fields", "ranged-row-with-decimal-numbers", "row-named-MARKER", "row-named-like-a-keyword", "column-named-like-a-keyword", "name-starting-with-a-star", "vector-names-starting-with-a-star"].iter().map(|s| s.to_string()).collect();
+        let mut v: Vec<String> = ["row=E", "row=L", "row=G", "range+@E", "range-@E", "range+@L", "range-@L", "range+@G", "range-@G", "5-field", "objsense-own-line", "objsense-absent", "foreign-objective-name", "obj-constant", "gzip", "tabs", "comments", "integer-marker", "objsense-gap", "row-named-like-range-twin", "numeric-looking-column-name", "numeric-looking-row-name", "explicit-zero-entry", "column-with-only-zero-entries", "comments-that-look-like-content", "gzip-header-with-optional-fields", "gzip-file-not-named-.mps.gz", "ranged-row-with-decimal-numbers", "row-named-MARKER", "row-named-like-a-keyword", "column-named-like-a-keyword", "name-starting-with-a-star", "vector-names-starting-with-a-star"].iter().map(|s| s.to_string()).collect();
         for b in ["none", "UP", "UP-negative", "LO", "LO+UP", "FX", "MI", "PL", "FR", "BV", "LI", "UI", "MI+UP"] {
             v.push(format!("bound={b}"));
         }
@@ -285,6 +287,9 @@ impl Property for C17 {
         ctx.fp(&[layout.gzip as u8]);
         if layout.gzip && (tag / 5) % 4 != 0 {
             ctx.label("gzip-header-with-optional-fields");
+        }
+        if layout.gzip && tag % 5 == 0 && (tag / 20) % 5 != 0 {
+            ctx.label("gzip-file-not-named-.mps.gz");
         }
         let kinds: std::collections::BTreeSet<char> = lp.rows.iter().map(|r| r.kind).collect();
         let specs: std::collections::BTreeSet<&str> = lp.cols.iter().map(|c| bound_keyword(&c.bound)).collect();
